@@ -10,7 +10,8 @@ EXTENDS CsvGrammar, TLC, FiniteSets
 
 CONSTANTS MaxFields,     \* fields per record in the one-record universe
           MaxFieldLen,   \* characters per field there
-          MaxFieldLen2,  \* characters per field in the two-record universe (<= 2 fields per record)
+          MaxFieldLen2,  \* characters per field in the two-record universe (<= 2 fields in the first record)
+          MaxFields2,    \* fields of the second record there
           MaxText        \* length of the texts
 
 A == 97
@@ -30,8 +31,9 @@ vars == <<mode, w, recs, txt>>
 InitRecs ==
   /\ mode = "recs" /\ txt = <<>> /\ w \in Formats
   /\ \/ \E n \in 1..MaxFields : recs \in {<<r>> : r \in [1..n -> SeqsUpTo(Alpha(w), MaxFieldLen)]}
-     \/ \E n1 \in 1..2, n2 \in 1..2 :
-          recs \in {<<r1, r2>> : r1 \in [1..n1 -> SeqsUpTo(Alpha(w), MaxFieldLen2)], r2 \in [1..n2 -> SeqsUpTo(Alpha(w), MaxFieldLen2)]}
+     \/ \E n1 \in 1..2, n2 \in 1..MaxFields2 :
+          \E r1 \in [1..n1 -> SeqsUpTo(Alpha(w), MaxFieldLen2)] : \E r2 \in [1..n2 -> SeqsUpTo(Alpha(w), MaxFieldLen2)] :
+             recs = <<r1, r2>>
      \/ recs = <<>>
 InitText ==
   /\ mode = "text" /\ recs = <<>> /\ w \in {x \in Formats : x.style = "necessary"}
